@@ -18,7 +18,9 @@ Reading of the source
 * float literals are the exact doubles;
 * a power of two numeric LITERALS (`2 ** -5`, after a name imported from params.py has been replaced by its literal)
   is the exact value of the double Python computes for it;
-* `not <test>` where the test is resolved by `given` / `absent` folds to `True` / `False`;
+* `not <test>` where the test is resolved by `given` / `absent` folds to `True` / `False`; in `a and b` / `a or b` an
+  operand resolved to a constant is dropped (neutral) or ends the reading of the later operands (absorbing, and
+  nothing before it: Python's short-circuit evaluation);
 * `argument_of(fn, callee, param)` (bottom of this file) reads "the value `fn` passes to `callee` as `param`": the
   function is cut at its final `return callee(...)` and returns that argument instead (positional or keyword).
 """
@@ -185,7 +187,24 @@ class Fn:
     def cond(self, e, env):
         if isinstance(e, ast.BoolOp):
             op = " ∧ " if isinstance(e.op, ast.And) else " ∨ "
-            return "(" + op.join(self.cond(v, env) for v in e.values) + ")"
+            # Python evaluates the operands left to right and stops at the first that decides the result: an operand
+            # resolved to the absorbing constant ends the translation there, a neutral one is dropped
+            absorbing, neutral = ("False", "True") if isinstance(e.op, ast.And) else ("True", "False")
+            parts = []
+            for v in e.values:
+                c = self.cond(v, env)
+                if c == absorbing:
+                    if not parts:
+                        return absorbing
+                    parts.append(c)
+                    break
+                if c != neutral:
+                    parts.append(c)
+            if not parts:
+                return neutral
+            if len(parts) == 1:
+                return parts[0]
+            return "(" + op.join(parts) + ")"
         if isinstance(e, ast.UnaryOp) and isinstance(e.op, ast.Not):
             inner = self.cond(e.operand, env)
             if inner in ("True", "False"):
